@@ -33,7 +33,7 @@ EXPLANATION += (' ' + 'RETAIN/override-store: an override of set_length may stor
 TRUSTED = ['list semantics as modelled', 'hasattr on standard-library modules of the checker\'s interpreter (same Python as the repository\'s)']
 NOT_DECIDED = ['lock-step equivalence with a list model over all operation histories', 'Melody events staying in -2..127 under arbitrary transposition (values)']
 ASSUMPTIONS = ['callers of ChordProgression.from_quantized_sequence pass start_step <= end_step']
-FLOORS = {'INV': 25, 'IDX': 1, 'SLICE': 1, 'IFACE': 50, 'PAIRED': 4, 'API': 10, 'STEPS': 8, 'RETAIN': 1}
+FLOORS = {'INV': 25, 'IDX': 1, 'SLICE': 1, 'IFACE': 50, 'PAIRED': 4, 'API': 10, 'STEPS': 8, 'RETAIN': 1, 'RANGE': 2}
 
 FAMILY = ['events_lib:SimpleEventSequence', 'melodies_lib:Melody', 'drums_lib:DrumTrack', 'chords_lib:ChordProgression']
 ESTABLISHERS = {'__init__', '_reset', '_from_event_list', 'from_event_list'}
@@ -51,6 +51,7 @@ def run(ctx):
   api(ctx)
   steps_family(ctx)
   retained_side(ctx)
+  melody_range(ctx)
 
 
 # ------------------------------------------------------------------ S1 / S2
@@ -318,6 +319,43 @@ def steps_family(ctx):
   ctx.ob('STEPS/pianoroll-range', pr, pr.node, ok, 'one frame per step: num_steps = len, end_step = start_step + num_steps' if ok else 'PianorollSequence step range is not derived from its length')
 
 
+# ------------------------------------------------------------------ Melody event range
+def melody_range(ctx):
+  """"Melody events stay within -2..127": every entry point that puts caller-supplied events into a Melody checks each of
+  them - the check sits in a loop over all the supplied events that nothing leaves early, or directly on the one event."""
+  ci = ctx.cls('melodies_lib:Melody')
+  for name in ('_from_event_list', 'append'):
+    m = ci.methods.get(name)
+    ctx.require(m is not None, 'Melody.%s not found' % name)
+    ps = m.params()
+    guards = [s_ for s_ in U.walk_stmts(m.node) if isinstance(s_, ast.If) and any(isinstance(x, ast.Raise) for x in s_.body) and
+              'MIN_MELODY_EVENT' in norm_text(s_.test) and 'MAX_MELODY_EVENT' in norm_text(s_.test)]
+    ok = len(guards) == 1
+    why = 'no single range check'
+    if ok:
+      g = guards[0]
+      t = g.test.operand if isinstance(g.test, ast.UnaryOp) and isinstance(g.test.op, ast.Not) else None
+      ok = isinstance(t, ast.Compare) and len(t.ops) == 2 and all(isinstance(o, ast.LtE) for o in t.ops) and norm_text(t.left) == 'MIN_MELODY_EVENT' and \
+          norm_text(t.comparators[1]) == 'MAX_MELODY_EVENT'
+      why = 'the check is not "not MIN_MELODY_EVENT <= e <= MAX_MELODY_EVENT"'
+      if ok:
+        var = norm_text(t.comparators[0])
+        loops = [a for a in U.ancestors(m.node, g) if isinstance(a, ast.For)]
+        if loops:
+          lp = loops[0]
+          tnames = [n.id for n in ast.walk(lp.target) if isinstance(n, ast.Name)]
+          over_all = norm_text(lp.iter) == ps[1] or (isinstance(lp.iter, ast.Call) and dotted(lp.iter.func) == 'enumerate' and norm_text(lp.iter.args[0]) == ps[1])
+          early = [x for x in ast.walk(lp) if isinstance(x, (ast.Break, ast.Continue, ast.Return))]
+          first = lp.body[0] is g
+          ok = over_all and var in tnames and not early and first and len(loops) == 1
+          why = 'the range check is in a loop that %s' % ('does not run over all supplied events' if not over_all else 'can be left early (break/continue/return)' if early else 'does other work before the check')
+        else:
+          ok = var == ps[1] and U.parent(m.node, g) is m.node
+          why = 'the range check is not applied to the appended event unconditionally'
+    ctx.ob('RANGE/melody-validated', m, guards[0] if guards else m.node, ok, 'Melody.%s checks every supplied event against MIN/MAX_MELODY_EVENT' % name if ok else
+           'Melody.%s: %s - an out-of-range event can be stored' % (name, why), construct='Melody.%s validates every event' % name)
+
+
 # ------------------------------------------------------------------ retained side
 def retained_side(ctx):
   """"set_length keeps the events of the retained side": an override of set_length
@@ -384,6 +422,8 @@ def has_cmp(test, text):
 
 
 MUTANTS = [
+    Mutant('seed C17_d: range validation folded into the loop that stops at the first note', ML, "    for event in events:\n      if not MIN_MELODY_EVENT <= event <= MAX_MELODY_EVENT:\n        raise ValueError('Melody event out of range: %d' % event)\n", "",
+           rule='RANGE/melody-validated', also=[(ML, "    for i, e in enumerate(events):\n      if e not in (MELODY_NO_EVENT, MELODY_NOTE_OFF):", "    for i, e in enumerate(events):\n      if not MIN_MELODY_EVENT <= e <= MAX_MELODY_EVENT:\n        raise ValueError('Melody event out of range: %d' % e)\n      if e not in (MELODY_NO_EVENT, MELODY_NOTE_OFF):")]),
     Mutant('seed C17_a: the sustained-note fix-up also runs when padding on the left', ML, '    if steps > old_len and not from_left:', '    if steps > old_len:', rule='RETAIN/override-store'),
     Mutant('the fix-up overwrites the last retained event', ML, '          self._events[old_len] = MELODY_NOTE_OFF', '          self._events[old_len - 1] = MELODY_NOTE_OFF', rule='RETAIN/override-store'),
     Mutant('guard written as nested ifs (harmless)', ML, '    if steps > old_len and not from_left:\n      # When extending the melody on the right, we end any sustained notes.\n      for i in reversed(range(old_len)):\n        if self._events[i] == MELODY_NOTE_OFF:\n          break\n        elif self._events[i] != MELODY_NO_EVENT:\n          self._events[old_len] = MELODY_NOTE_OFF\n          break',
